@@ -24,7 +24,7 @@ for d in sorted((V / 'seeded').glob('C*-*')):
         r['verdict'] = line[-1][:160] if line else (k.stderr[-160:] if k.stderr else '')
         r['failing_input'] = (k.returncode == 1 and 'no-failing-input-found' not in (line[-1] if line else ''))
         sh('git -C /repo checkout -- .')
-        sh(f'git -C /verif checkout -- evidence/{prop}.json')  # evidence must come from runs on the unchanged tree
+        sh(f'git -C /verif checkout -- evidence/{prop}.json lean/TdVerif/Gen')  # evidence must come from runs on the unchanged tree
     out[mid] = r
     print(mid, r.get('applies'), r.get('exit'), 'failing-input' if r.get('failing_input') else '', flush=True)
     prev = json.loads((V / 'seeded/RESULTS.json').read_text()) if (V / 'seeded/RESULTS.json').exists() else {}
